@@ -154,6 +154,8 @@ def _sweep_job(job):
     count = 0
 
     def fits(n):
+        if not decl:
+            return True  # no length declared: every length fits
         return any((lo == [] or lo[0] <= n) and (hi == [] or n <= hi[0]) for lo, hi in decl)
 
     for value in range(start, min(start + 100000, 1000000)):
